@@ -1,7 +1,7 @@
 (* One entry point for the correspondence check: a request (an S-expression naming a stage and its input) is
    decoded, run through the model, and the observable encoded back.  Used extracted (driver/) and inside Coq. *)
 From Coq Require Import List String Ascii Bool NArith.
-From Yae Require Import Base.Sexp Model.Ty Model.Unify Model.Lexer.
+From Yae Require Import Base.Sexp Model.Ty Model.Unify Model.Lexer Model.Literal Model.Cst Model.Pratt Model.Desugar.
 Import ListNotations.
 Open Scope string_scope.
 
@@ -72,6 +72,44 @@ Definition run_lex (args : list sexp) : sexp :=
   | _ => bad
   end.
 
+Definition enc_pres (r : pres expr) : sexp :=
+  match r with POk e => L [A "ok"; enc_expr e] | PErr => A "err" | PFuel => A "fuel" end.
+
+Definition run_parse (args : list sexp) : sexp :=
+  match args with
+  | [ops; src] =>
+      match dec_operators ops, dNs src with
+      | Some o, Some s => enc_pres (parse_source o s)
+      | _, _ => bad
+      end
+  | _ => bad
+  end.
+
+Definition run_parsetoks (args : list sexp) : sexp :=
+  match args with
+  | [ops; L toks] =>
+      match dec_operators ops, mapM dec_tok toks with
+      | Some o, Some ts => enc_pres (parse_tokens o ts)
+      | _, _ => bad
+      end
+  | _ => bad
+  end.
+
+Definition run_desugar (args : list sexp) : sexp :=
+  match args with
+  | [e] => match dec_expr e with
+           | Some e' => match desugar e' with Some d => L [A "ok"; enc_expr d] | None => A "err" end
+           | None => bad end
+  | _ => bad
+  end.
+
+(* literal decoding: (strlit runes) -> value bytes ; (numlit runes) -> validity *)
+Definition run_strlit (args : list sexp) : sexp :=
+  match args with
+  | [t] => match dNs t with Some t' => eOpt eNs (str_value t') | None => bad end
+  | _ => bad
+  end.
+
 Definition dispatch (req : sexp) : sexp :=
   match req with
   | L (A tag :: args) =>
@@ -81,6 +119,10 @@ Definition dispatch (req : sexp) : sexp :=
       else if tag =? "inferfun" then run_inferfun args
       else if tag =? "tyinfo" then run_tyinfo args
       else if tag =? "lex" then run_lex args
+      else if tag =? "parse" then run_parse args
+      else if tag =? "parsetoks" then run_parsetoks args
+      else if tag =? "desugar" then run_desugar args
+      else if tag =? "strlit" then run_strlit args
       else bad
   | _ => bad
   end.
